@@ -30,6 +30,20 @@ ob("c07::is_valid_def", "C07", cls="modular", timeout=120, functions=["TwoFloat:
 ob("c07::try_from_tuple", "C07", cls="modular", timeout=120, functions=["TryFrom<(f64,f64)> for TwoFloat", "From<TwoFloat> for (f64,f64)", "From<&TwoFloat> for (f64,f64)"])
 ob("c07::try_from_array", "C07", cls="modular", timeout=120, functions=["TryFrom<[f64;2]> for TwoFloat", "From<TwoFloat> for [f64;2]", "From<&TwoFloat> for [f64;2]"])
 
+# ------------------------------------------------------------------ C06
+_cmp = ["PartialOrd<TwoFloat> for TwoFloat", "PartialEq<TwoFloat> for TwoFloat"]
+ob("c06::cmp_tf_tf", "C06", timeout=240, functions=_cmp)
+ob("c06::cmp_tf_f64", "C06", timeout=240, functions=["PartialOrd<f64> for TwoFloat", "PartialOrd<TwoFloat> for f64", "PartialEq<f64> for TwoFloat", "PartialEq<TwoFloat> for f64"])
+ob("c06::eq_symmetric", "C06", timeout=240, functions=["PartialEq<TwoFloat> for TwoFloat"])
+ob("c06::eq_iff_cmp_equal", "C06", timeout=240, functions=_cmp)
+ob("c06::nan_unordered", "C06", timeout=240, functions=_cmp)
+ob("c06::min_max", "C06", timeout=300, functions=["TwoFloat::min", "TwoFloat::max"])
+ob("c06::sign_queries", "C06", timeout=300, functions=["TwoFloat::abs", "TwoFloat::is_sign_positive", "TwoFloat::is_sign_negative", "TwoFloat::signum", "TwoFloat::copysign"])
+ob("c06::signum_invalid", "C06", timeout=240, functions=["TwoFloat::signum"])
+ob("c06::lemma_sign", "C06", cls="lemma", timeout=300)
+for _c in ("p0", "p1", "p2", "p3", "n0", "n1", "n2", "n3"):
+    ob("c06::lemma_bracket_" + _c, "C06", tier="thorough", cls="lemma", timeout=5400)
+
 COMMON_ASSUMPTIONS = [
     "Kani/CBMC bit-precise model of IEEE-754 binary64 (+,-,*,/,fma,casts,comparisons) equals the target's; one NaN (payload/sign of NaN not modelled)",
     "solver soundness (kissat, cadical, cvc5)",
